@@ -909,7 +909,21 @@ def drive_name(env, r, entry, kind, s, cls_name=None):
                 env.ctx.violation(f'C16/names-{kind}-stored-despite-rejection',
                                   'rename rejected the name but the stored name changed',
                                   {'family': 'names', 'kind': kind, 'entry': entry, 'value': s, 'stored': now})
-            elem._name = old
+            # the same name offered again through the same handle (a caller retrying) is refused again
+            env.ctx.count('clause:rejected-again-on-retry')
+            try:
+                elem.rename(s)
+                second = 'accepted'
+            except Exception:
+                second = 'rejected'
+            now2 = fx.graph_prop(elem, C.PROP_NAME)
+            if second == 'accepted' or now2 != old:
+                env.ctx.violation(f'C16/names-{kind}-accepted-on-second-attempt',
+                                  'a name outside the documented domain is never stored - also when the rejected call is repeated',
+                                  {'family': 'names', 'kind': kind, 'entry': entry, 'value': s, 'second_attempt': second, 'stored': now2})
+                env.fixture(fresh=True)
+            else:
+                elem._name = old
             raise
         stored = fx.graph_prop(elem, C.PROP_NAME)
         try:
